@@ -258,6 +258,51 @@ Proof.
   apply order_sound; assumption.
 Qed.
 
+(* ------------------------------------------------------------------ the last handlers are persisted *)
+
+Lemma hexec_old rec : forall p k v saved, hexec rec p k v saved = hexec rec (old_part p) k v saved.
+Proof.
+  induction p as [|s r IH]; intros k v saved; [reflexivity|]. destruct s; cbn [hexec old_part]; try apply IH; reflexivity.
+Qed.
+
+Lemma old_part_no_new p : ~ In SNewInstance (old_part p).
+Proof. induction p as [|s r IH]; cbn [old_part]; [tauto|]. destruct s; cbn [In]; try tauto; intros [H|H]; try discriminate; tauto. Qed.
+
+(* a stretch without persist and without handler changes nothing *)
+Lemma hexec_quiet rec : forall l k v saved, ~ In SNewInstance l -> existsb is_sync l = false -> existsb is_handler l = false ->
+  hexec rec l k v saved = (v, saved).
+Proof.
+  induction l as [|s r IH]; intros k v saved Hn Hs Hh; [reflexivity|].
+  cbn [existsb] in Hs, Hh. apply orb_false_iff in Hs. apply orb_false_iff in Hh. destruct Hs as [Hs1 Hs2], Hh as [Hh1 Hh2].
+  assert (Hn' : ~ In SNewInstance r) by (intros X; apply Hn; right; exact X).
+  destruct s; cbn [hexec]; try (apply IH; assumption); try discriminate. exfalso. apply Hn. left. reflexivity.
+Qed.
+
+Lemma hexec_recorded rec : forall l k v saved, ~ In SNewInstance l -> existsb is_sync l = true ->
+  existsb is_handler (after_last_persist l) = false -> fst (hexec rec l k v saved) = snd (hexec rec l k v saved).
+Proof.
+  induction l as [|s r IH]; intros k v saved Hn Hs Hh; [discriminate|].
+  assert (Hn' : ~ In SNewInstance r) by (intros X; apply Hn; right; exact X).
+  cbn [after_last_persist] in Hh. destruct (existsb is_sync r) eqn:Er.
+  - destruct s; cbn [hexec]; try (apply IH; [exact Hn'|reflexivity|exact Hh]). exfalso. apply Hn. left. reflexivity.
+  - cbn [existsb] in Hs. rewrite Er, orb_false_r in Hs. rewrite Hs in Hh. destruct s; try discriminate.
+    cbn [hexec]. rewrite (hexec_quiet rec r k v v Hn' Er Hh). reflexivity.
+Qed.
+
+(* for every routine that passes the check and has a synchronous persist while the old instance is installed: whatever its
+   last handlers record, the journal handed to the last Save is the state the old instance ends with *)
+Theorem handlers_recorded_sound rec p v saved :
+  handlers_recorded p = true -> existsb is_sync (old_part p) = true ->
+  fst (hexec rec p 0 v saved) = snd (hexec rec p 0 v saved).
+Proof.
+  unfold handlers_recorded. intros H Hs. apply negb_true_iff in H. rewrite hexec_old.
+  apply hexec_recorded; [apply old_part_no_new|exact Hs|exact H].
+Qed.
+
+Lemma facts_handlers_recorded ft fr : term_order_ok ft = true -> restart_order_ok fr = true ->
+  handlers_recorded (prog_of ft) = true /\ handlers_recorded (prog_of fr) = true.
+Proof. intros Ht Hr. unfold term_order_ok in Ht. unfold restart_order_ok in Hr. bools. split; assumption. Qed.
+
 Lemma launches_exactb_spec w : launches_exact w -> launches_exactb w = true.
 Proof.
   unfold launches_exact, launches_exactb. intros H. apply forallb_forall. intros e He.
